@@ -42,33 +42,51 @@ int main(int argc, char** argv) {
       tr.raw("Section GK.\nVariable f : R -> R.\n");
       auto leaves = tr.def_paths("gk_gen", {a, b}, [&] { return gk_call<Sym>(f, a, b); });
       tr.raw("End GK.\n\n");
-      // tables from the leaf a <= b (integrate(f,a,b)): K15 from the value, G7 from value - signed estimate
+      // tables from the leaf "not (a > b)" (integrate(f,a,b)): K15 from the value, G7 from value - signed estimate;
+      // the leaf "a > b" (integrate(f,b,a), negated) must yield the same tables with the bounds exchanged
       const Leaf* fwd = nullptr;
+      const Leaf* swp = nullptr;
       for (auto& L : leaves)
-        if (L.error.empty() && L.conds.size() == 1 && !L.conds[0].value) fwd = &L;
-      if (leaves.size() != 2 || fwd == nullptr) {
+        if (L.error.empty() && L.conds.size() == 1 && L.out.size() == 2) (L.conds[0].value ? swp : fwd) = &L;
+      if (leaves.size() != 2 || fwd == nullptr || swp == nullptr) {
         std::printf("TRACE-FAIL gk: expected the two leaves (a > b) / not (a > b), got %zu\n", leaves.size());
         return 1;
       }
-      RatEnv e01{{"a", Rat{0, 1}}, {"b", Rat{1, 1}}};
-      auto K = rule_table(fwd->out[0], "f", e01);
-      tr.raw(table_def("gk_K15", K));
-      // the error estimate is |k15 - g7|: its argument is the trace below the outermost abs
-      const Node en = Store::get().nodes[node_of(fwd->out[1])];
-      if (en.op != ABS) {
-        std::printf("TRACE-FAIL gk: error estimate is not an absolute value\n");
+      std::vector<std::pair<Rat, Rat>> Kt[2], Gt[2];
+      std::vector<Rule> rules;
+      for (int s = 0; s < 2; ++s) {
+        const Leaf* L = s == 0 ? fwd : swp;
+        RatEnv e01 = s == 0 ? RatEnv{{"a", Rat{0, 1}}, {"b", Rat{1, 1}}} : RatEnv{{"a", Rat{1, 1}}, {"b", Rat{0, 1}}};
+        Rule K = rule_table(L->out[0], "f", e01);
+        if (s == 1)
+          for (auto& kv : K.tab) kv.second = rneg(kv.second);  // the swapped leaf returns -integrate(f,b,a)
+        // the error estimate is |k15 - g7|: its argument is the trace below the outermost abs
+        const Node en = Store::get().nodes[node_of(L->out[1])];
+        if (en.op != ABS) {
+          std::printf("TRACE-FAIL gk: error estimate is not an absolute value\n");
+          return 1;
+        }
+        Rule D = rule_table(from_node(en.a), "f", e01);  // K15 - G7 as one rule
+        for (auto& kv : K.tab) {
+          Rat w = kv.second;
+          for (auto& dv : D.tab)
+            if (req(dv.first, kv.first)) w = radd(w, rneg(dv.second));
+          if (w.n != 0) Gt[s].push_back({kv.first, w});
+        }
+        Kt[s] = K.tab;
+        rules.push_back(K);
+        rules.push_back(D);
+      }
+      if (!same_table(Kt[0], Kt[1]) || !same_table(Gt[0], Gt[1])) {
+        std::printf("TRACE-FAIL gk: the two leaves do not carry the same rule\n");
         return 1;
       }
-      auto D = rule_table(from_node(en.a), "f", e01);  // K15 - G7 as one rule
-      // G7 = K15 - D on the union of nodes
-      std::vector<std::pair<Rat, Rat>> G;
-      for (auto& kv : K) {
-        Rat w = kv.second;
-        for (auto& dv : D)
-          if (req(dv.first, kv.first)) w = radd(w, rneg(dv.second));
-        if (w.n != 0) G.push_back({kv.first, w});
-      }
+      const auto& K = Kt[0];
+      const auto& G = Gt[0];
+      tr.raw(table_def("gk_K15", K));
       tr.raw(table_def("gk_G7", G));
+      args_def(tr, "gk_fwd", {a, b}, {rules[0], rules[1]});
+      args_def(tr, "gk_swp", {a, b}, {rules[2], rules[3]});
       std::printf("TABLE gk_K15 %zu gk_G7 %zu\n", K.size(), G.size());
       for (auto& kv : K) std::printf("NODE K %.17g %.17g\n", rdouble(kv.first), rdouble(kv.second));
       for (auto& kv : G) std::printf("NODE G %.17g %.17g\n", rdouble(kv.first), rdouble(kv.second));
